@@ -13,8 +13,14 @@ let n2i = int_of_nat
 let words s = List.filter (fun x -> x <> "") (String.split_on_char ' ' (String.trim s))
 
 let kind_of_string = function
-  | "ok" -> KOk | "missing" -> KMissing | "garbage" -> KGarbage | "badhdr" -> KBadHdr | "dir" -> KDir
+  | "ok" | "okL" | "okB" | "okE" -> KOk | "missing" -> KMissing | "garbage" -> KGarbage | "badhdr" -> KBadHdr | "dir" -> KDir
   | s -> failwith ("kind " ^ s)
+
+
+let layout_of_string = function "okL" -> LLegacy | "okB" -> LBig | "okE" -> LLittle | _ -> LNative
+let attr_str (x : fattr) =
+  let ch n = if n2i n = 0 then "0" else if n2i n = 32 then "_" else String.make 1 (Char.chr (n2i n)) in
+  Printf.sprintf "%d%s%s%s%d" (if x.a_old then 1 else 0) (ch x.a_fmt) (ch x.a_os) (ch x.a_sep) (if x.a_vupd then 1 else 0)
 
 let dump (s : io) =
   let b = Buffer.create 200 in
@@ -24,11 +30,12 @@ let dump (s : io) =
       if n2i i < List.length s.io_adf.tab then string_of_int (n2i i) else "?") s.iol));
   Buffer.add_string b (Printf.sprintf " | adf %d " (List.length s.io_adf.tab));
   if s.io_adf.tab = [] then Buffer.add_string b "-" else
-    Buffer.add_string b (String.concat ";" (List.map (fun sl ->
+    Buffer.add_string b (String.concat ";" (List.mapi (fun idx sl ->
       let iu = n2i sl.in_use in
-      Printf.sprintf "%d:%d:%d:%s" iu (if iu > 0 && sl.fd_open then 1 else 0)
+      Printf.sprintf "%d:%d:%d:%s:%s" iu (if iu > 0 && sl.fd_open then 1 else 0)
         (if iu > 0 then (match sl.fname with Some n -> n2i n | None -> -1) else -1)
-        (if iu = 0 || sl.links = [] then "-" else String.concat "," (List.map (fun x -> string_of_int (n2i x)) sl.links)))
+        (if iu = 0 || sl.links = [] then "-" else String.concat "," (List.map (fun x -> string_of_int (n2i x)) sl.links))
+        (if iu = 0 then "-" else attr_str (try List.nth s.io_adf.amem idx with _ -> zero_attr)))
       s.io_adf.tab));
   Buffer.add_string b (Printf.sprintf " | fds %d" (List.length s.io_adf.ledger));
   Buffer.contents b
@@ -38,7 +45,7 @@ let parse_step x =
   if n > 0 && x.[n - 1] = '!' then (i2n (int_of_string (String.sub x 0 (n - 1))), true) else (i2n (int_of_string x), false)
 
 let run_io () =
-  let v = ref Cur and fuel = ref 20000 and w = ref { kinds = []; wlinks = []; wdlinks = [] } and s = ref io_init in
+  let v = ref Cur and fuel = ref 20000 and w = ref { kinds = []; wlinks = []; wdlinks = []; layouts = [] } and s = ref io_init in
   let stop = ref false in
   (try while not !stop do
     let line = input_line stdin in
@@ -51,7 +58,7 @@ let run_io () =
         let all = if ls = "-" then [] else List.map (fun e -> match String.split_on_char '>' e with
                    | [a; b] -> let (bn, d) = parse_step b in ((i2n (int_of_string a), bn), d) | _ -> failwith "link") (String.split_on_char ',' ls) in
         let wl = List.map fst (List.filter (fun (_, d) -> not d) all) and wd = List.map fst (List.filter (fun (_, d) -> d) all) in
-        w := { kinds = kinds; wlinks = wl; wdlinks = wd }; s := io_init;
+        w := { kinds = kinds; wlinks = wl; wdlinks = wd; layouts = List.map layout_of_string (String.split_on_char ',' ks) }; s := io_init;
         print_string ("world ok" ^ dump !s ^ "\n")
     | op :: rest when List.mem op ["open"; "walk"; "node"; "close"] ->
         let o = (match op, rest with
